@@ -173,7 +173,7 @@ theorem caseBPs_ok (sw : String) : ∀ (cs : Cases) (s : St) (bps : List BP) (s'
 theorem case_block_shape {hjbs : List BP} {cf : Bool} {bodyM : M (List LItem)}
     {sa sc : St} {blk : Blk} (h : blockOf hjbs cf false bodyM sa = .ok (blk, sc)) :
     ∃ ops sb, bodyM sa = .ok (ops, sb) ∧ SameStk sb sc ∧
-      ((∃ l eB, hjbs ≠ [] ∧ loneJump ops = some (some l) ∧ blk.items = [.label eB false] ∧ blk.start = some l ∧
+      ((∃ l eB, cf = true ∧ hjbs ≠ [] ∧ loneJump ops = some (some l) ∧ blk.items = [.label eB false] ∧ blk.start = some l ∧
           HdrsTo (fun _ => l) hjbs blk.hdrs) ∨
        (∃ sL eB, blk.items = [.label sL false] ++ ops ++ [.label eB false] ∧
           blk.start = some sL ∧ HdrsTo (fun b => if b.positive then sL else eB) hjbs blk.hdrs)) := by
@@ -182,7 +182,13 @@ theorem case_block_shape {hjbs : List BP} {cf : Bool} {bodyM : M (List LItem)}
   obtain ⟨hst, hshape⟩ := processBlock_shape h2
   refine ⟨ops, sb, h1, hst, ?_⟩
   rcases hshape with ⟨l, hsc, hitems, hstart, hh⟩ | ⟨_, sL, js, hitems, hstart, _, hjs, hh⟩
-  · refine .inl ⟨l, _, ?_, ?_, hitems, hstart, hh⟩
+  · refine .inl ⟨l, _, ?_, ?_, ?_, hitems, hstart, hh⟩
+    · simp only [shortcutOf] at hsc
+      split at hsc
+      · rename_i hc
+        simp only [Bool.and_eq_true] at hc
+        exact hc.1.1
+      · cases hsc
     · intro he
       subst he
       simp [shortcutOf] at hsc
